@@ -200,7 +200,10 @@ class _Real:
         self.n = 0
         if self.kind != "func":
             wrapped = {"method": cached, "classmethod": classmethod(cached), "staticmethod": staticmethod(cached)}[self.kind]
-            C = type("C", (), {"m": wrapped})
+            # receivers are FALSY (an empty container-like instance; a class whose metaclass defines __bool__): binding must
+            # test `instance is None`, not truthiness
+            Meta = type("Meta", (type,), {"__bool__": lambda cls: False})
+            C = Meta("C", (), {"m": wrapped, "__len__": lambda self: 0})
             D = type("D", (C,), {})
             E = type("E", (C,), {})
             self.classes = [C, D, E]
